@@ -85,6 +85,9 @@ func runE6(p *Program, sp *Spec, c *Collector) {
 	for _, ns := range t.Nesting {
 		runNesting(p, sp, c, ns)
 	}
+	for _, ca := range t.CoAccess {
+		runCoAccess(p, sp, c, ca)
+	}
 }
 
 // ---------------------------------------------------------------------------------------------
@@ -1339,5 +1342,94 @@ func runNesting(p *Program, sp *Spec, c *Collector, ns NestingSpec) {
 		c.Ob(ns.Props, "E6.nesting", key, Discharged, "rule "+rule+" can occur inside itself (through "+via+"); the callback inspects the type of its parent", p.FuncPos(fn), true)
 	} else {
 		c.Ob(ns.Props, "E6.nesting", key, Violated, ns.What+": rule "+rule+" can occur inside itself (through "+via+"), and the callback records every occurrence alike without looking at its parent: a nested occurrence is recorded as if it stood on the declaration", p.FuncPos(fn), false)
+	}
+}
+
+
+// ---------------------------------------------------------------------------------------------
+// (i) co-access: the grammar spreads one notion over two child symbols of a rule (formalParameterList: formalParameter
+// (',' formalParameter)* (',' lastFormalParameter)? | lastFormalParameter — the parameters of a method are both). A function
+// that enumerates the notion through one accessor must also consult the other, or the last (varargs) parameter is not counted.
+
+type CoAccessSpec struct {
+	Props   []string `json:"props"`
+	Funcs   []string `json:"funcs"`
+	Grammar string   `json:"grammar"`
+	Rule    string   `json:"rule"`  // grammar rule
+	Using   string   `json:"using"` // accessor name (AllFormalParameter)
+	Also    string   `json:"also"`  // accessor that must be used as well (LastFormalParameter)
+	What    string   `json:"what"`
+}
+
+func runCoAccess(p *Program, sp *Spec, c *Collector, ca CoAccessSpec) {
+	g := sp.G[ca.Grammar]
+	if g == nil || g.Rules[ca.Rule] == nil {
+		c.Anchor(ca.Props, "E6: co-access: grammar rule %s/%s does not resolve", ca.Grammar, ca.Rule)
+		return
+	}
+	// both symbols must still be children of the rule (the rule instance follows the grammar)
+	syms := g.Symbols(ca.Rule, "")
+	a, b := lowerFirst(strings.TrimPrefix(ca.Using, "All")), lowerFirst(ca.Also)
+	if !syms[a] || !syms[b] {
+		c.Anchor(ca.Props, "E6: co-access: rule %s no longer has the children %s and %s", ca.Rule, a, b)
+		return
+	}
+	n := 0
+	for _, fn := range expandFuncs(p, c, ca.Funcs, ca.Props...) {
+		uses, also := false, false
+		var at ssa.Instruction
+		for _, blk := range fn.Blocks {
+			for _, in := range blk.Instrs {
+				call, ok := in.(ssa.CallInstruction)
+				if !ok {
+					continue
+				}
+				name := ""
+				if call.Common().IsInvoke() {
+					name = call.Common().Method.Name()
+				} else if cal := call.Common().StaticCallee(); cal != nil {
+					name = cal.Name()
+				}
+				if name == ca.Using {
+					uses = true
+					at = in
+				}
+				if name == ca.Also {
+					also = true
+				}
+			}
+		}
+		if !uses {
+			continue
+		}
+		if !also {
+			// through an own helper
+			for f := range p.reach([]*ssa.Function{fn}) {
+				if f == fn {
+					continue
+				}
+				for _, blk := range f.Blocks {
+					for _, in := range blk.Instrs {
+						if call, ok := in.(ssa.CallInstruction); ok {
+							if call.Common().IsInvoke() && call.Common().Method.Name() == ca.Also {
+								also = true
+							} else if cal := call.Common().StaticCallee(); cal != nil && cal.Name() == ca.Also {
+								also = true
+							}
+						}
+					}
+				}
+			}
+		}
+		n++
+		key := "coaccess:" + p.FuncKey(fn) + " " + ca.Using + "+" + ca.Also
+		if also {
+			c.Ob(ca.Props, "E6.co-access", key, Discharged, "both children of "+ca.Rule+" are consulted", p.InstrPos(at), true)
+		} else {
+			c.Ob(ca.Props, "E6.co-access", key, Violated, ca.What+": "+shortFn(p.FuncKey(fn))+" enumerates "+a+" children of "+ca.Rule+" only; the grammar also allows a "+b+" child, which is never looked at", p.InstrPos(at), false)
+		}
+	}
+	if n == 0 {
+		c.Ob(ca.Props, "E6.co-access", "coaccess:"+strings.Join(ca.Funcs, ","), Undecided, ca.What+": no use of "+ca.Using+" found (anchor lost)", "", false)
 	}
 }
